@@ -1,0 +1,20 @@
+//go:build verif
+
+package main
+
+import (
+	"os"
+	"strconv"
+	"time"
+)
+
+// Verification hook: the wait between two steps of the run loop can be
+// shortened through MRO_VERIF_STEP_MS, so that cluster-mode runs (where
+// nothing wakes the loop when a job ends) take milliseconds per level of
+// the call graph instead of three seconds.
+func verifStepInterval(d time.Duration) time.Duration {
+	if ms, err := strconv.Atoi(os.Getenv("MRO_VERIF_STEP_MS")); err == nil && ms > 0 {
+		return time.Duration(ms) * time.Millisecond
+	}
+	return d
+}
